@@ -62,7 +62,7 @@ def failing_plugin_ud(rng):
     return s
 
 
-JUNK_KINDS = ['pluginFailsThenCut', 'pluginFailsThenCut', 'empty', 'badPHid', 'badUHid', 'truncInHeaders', 'truncAfterHeaders', 'truncAfterSRC',
+JUNK_KINDS = ['pluginFailsThenCut', 'pluginFailsThenCut', 'pceSizeMore', 'calloutFlip', 'calloutFlip', 'empty', 'badPHid', 'badUHid', 'truncInHeaders', 'truncAfterHeaders', 'truncAfterSRC',
               'corruptLater', 'random', 'pceSize', 'badUtf8Creator', 'badUtf8Src', 'hugeWordCount', 'noPrimarySrc', 'countTwo', 'byteflip', 'byteflip', 'byteflip']
 
 
@@ -127,6 +127,37 @@ def pce_size_junk(rng):
     k = bytes(data).find(b'PE', 72 + 80)
     data[k + 2] = 8
     return bytes(data[: len(data) - 2])
+
+
+def callout_junk(rng, kind):
+    """a PEL with a rich callout subsection AND more sections behind the SRC, damaged inside the callouts: the
+    decoder leaves the callout walk in many different ways (range check, attribute of a half-built object, index,
+    text decoding ...) - whichever it is, the file must only cost its own entry"""
+    pel = mk_pel(rng, 0x5F000002, extra_secs=False)
+    shapes = [dict(fru=rng.choice(['p', 'm', 'pcs']), pce=rng.choice([4, 8, None]), mru=rng.choice([None, 1, 3]),
+                   loc=rng.choice([0, 4, 12])) for _ in range(rng.randrange(1, 4))]
+    if kind == 'pceSizeMore':
+        # the PCE identity is the last thing in the last callout and has no name; the section behind the SRC is
+        # plain ASCII: the walk slips by a few bytes, reads a bogus callout out of the next section and comes to
+        # an end - the damage shows only when the half-built PCE object is displayed
+        shapes[-1] = dict(fru='p', pce=0, mru=None, loc=rng.choice([0, 4]))
+    s = genpel.gen_src(rng, 'PS', ncallouts=len(shapes), shapes=shapes)
+    mt = genpel.gen_mt(rng)
+    if kind == 'pceSizeMore':
+        mt.update(ver=rng.randrange(1, 0x80), sub=rng.randrange(0x80), comp=[rng.randrange(1, 0x80), rng.randrange(0x80)])
+    pel['secs'] = [s, mt, genpel.gen_eh(rng), genpel.gen_ud(rng, creator='O')]
+    data = bytearray(encode.encode(pel))
+    lo = 72 + 80
+    hi = 72 + len(encode.section_bytes(s))
+    if kind == 'pceSizeMore':
+        k = bytes(data).rfind(b'PE', lo, hi)
+        if k > 0:
+            data[k + 2] = rng.randrange(16, 24)      # PCE identity shorter than its fixed part
+    else:
+        for _ in range(rng.choice([1, 1, 2])):
+            off = rng.randrange(lo, max(lo + 1, hi))
+            data[off] = rng.choice([0x00, 0xFF, data[off] ^ 0x80, data[off] ^ 0x01, rng.randrange(256)])
+    return bytes(data)
 
 
 def write_dir(d, files):
